@@ -408,6 +408,8 @@ func (e *Exec) refEq(x, y Value) T {
 			} else if havocked(px.Loc.Obj) || havocked(py.Loc.Obj) {
 				same = Eq(addrOf(px.Loc.Obj), addrOf(py.Loc.Obj))
 			}
+		} else if px.Loc != nil && py.Loc != nil && px.Loc.Reg != nil && px.Loc.Reg == py.Loc.Reg && strings.HasPrefix(px.Loc.Reg.Name, "heap:") && len(px.Loc.Path) == 0 && len(py.Loc.Path) == 0 {
+			same = Eq(px.Loc.Idx, py.Loc.Idx)
 		} else if px.Loc != nil && py.Loc != nil && (havocked(px.Loc.Obj) || havocked(py.Loc.Obj)) {
 			same = e.fresh("ptreq", BoolSort)
 		}
